@@ -78,6 +78,7 @@ class HandlerPolicy(Policy):
 
     inline_depth = 12
     inline_classes = {"AstEval", "EvalFunc", "EvalFuncVar", "EvalAttrSet", "EvalLocalVar", "EvalReturn", "EvalStopFlow"}
+    construct_classes = ("EvalAttrSet", "EvalFunc", "EvalFuncVar", "EvalLocalVar")
     loop_unroll = 2
     max_cfgs = 50000
     emit_setitem = True
@@ -98,15 +99,21 @@ class HandlerPolicy(Policy):
                 cs = const_set(s.value)
                 if cs is not None:
                     self.mod_consts[s.targets[0].id] = Const(frozenset(cs))
-                elif isinstance(s.value, ast.Dict) and all(k is not None for k in s.value.keys):
-                    # module level lookup table (e.g. operator tables keyed by ast classes)
+                elif isinstance(s.value, (ast.Dict, ast.Call, ast.BinOp, ast.Set, ast.Tuple, ast.List)):
+                    # module level lookup table (e.g. operator tables keyed by ast classes) or a set built from other constants
                     sub = Interp(Policy(program), rel)
+                    env = {k: (ListV([Const(x) for x in sorted(v.v, key=repr)], "set") if isinstance(v, Const) and isinstance(v.v, frozenset) else v)
+                           for k, v in self.mod_consts.items()}
                     try:
-                        r = sub.ev(s.value, Cfg(), Out())
+                        r = sub.ev(s.value, Cfg(env=env), Out())
                     except AnalysisError:
                         r = []
                     if len(r) == 1:
-                        self.mod_consts[s.targets[0].id] = r[0][1]
+                        v = r[0][1]
+                        if isinstance(v, ListV) and v.kind == "set" and all(isinstance(x, Const) for x in v.items):
+                            v = Const(frozenset(x.v for x in v.items))
+                        if isinstance(v, (Const, DictV)):
+                            self.mod_consts[s.targets[0].id] = v
 
     # -- names -----------------------------------------------------------
     def global_name(self, name, interp):
@@ -123,6 +130,8 @@ class HandlerPolicy(Policy):
         # self.aeval(leaf)  -> event
         if isinstance(fval, FuncV) and fval.name.endswith(".aeval") and args and is_leaf(args[0]):
             leaf = args[0]
+            if getattr(self, "snapshot", False) and leaf.fields.get("$stmt") is not None and isinstance(fval.recv, ObjV):
+                cfg = cfg.emit(("snapshot", cfg.heap.get(f"{fval.recv.oid}.sym_table")))
             cfg = cfg.emit(("eval", leaf.path))
             if self.raise_at_eval:
                 out.add("raise", cfg.set("$exc", ExcV("Exception", f"eval {leaf.path}")))
@@ -144,12 +153,23 @@ class HandlerPolicy(Policy):
                 label = fval.name
                 cfg = cfg.emit(("call", label, tuple(args), tuple(kwargs.items())))
                 return [(cfg, App("res", (Const(label), *args)))]
+        if getattr(self, "decorator_unknown", False) and fname and fname.endswith("get_decorator_by_expr"):
+            return [(cfg, NONE)]
         if isinstance(fval, FuncV) and fval.name.split(".")[-1] in self.opaque_methods:
             short = fval.name.split(".")[-1]
             cfg = cfg.emit(("call", short, tuple(args), tuple(kwargs.items())))
             if short == "call_func" and self.raise_at_call and args:
                 out.add("raise", cfg.set("$exc", ExcV("Exception", f"call {args[0]!r}")))
             return [(cfg, App("res", (Const(short), *args)))]
+        if fname == "compile":
+            return [(cfg, App("compile", tuple(args[:1])))]
+        if fname == "exec" and getattr(self, "exec_havoc", False) and len(args) == 3 and isinstance(args[2], DictV):
+            fdef = cfg.env.get("arg")
+            if isinstance(fdef, NodeV) and isinstance(fdef.fields.get("name"), Const):
+                name = fdef.fields["name"]
+                newd = args[2].set(name, Sym(("native", name.v)))
+                cfg = interp.store_back(node.args[2], newd, cfg.emit(("exec", name.v)))
+                return [(cfg, NONE)]
         if fname == "sys.exc_info":
             return [(cfg, App("excinfo", ()))]
         if isinstance(fval, Sym) and fval.tag[0] == "g" and fval.tag[1].startswith("operator.") and not kwargs:
@@ -174,7 +194,7 @@ class HandlerPolicy(Policy):
         if isinstance(fval, ClassV):
             if fval.name in ("EvalReturn", "EvalBreak", "EvalContinue"):
                 return [(cfg, App("new", (fval, *args)))]
-            if fval.name in ("EvalAttrSet",):
+            if fval.name in self.construct_classes:
                 init = interp.lookup_method(fval.name, "__init__")
                 if init is not None:
                     self._oid = getattr(self, "_oid", 0) + 1
